@@ -42,6 +42,13 @@ def run_one(m, with_tests):
                 if r1.returncode != 0:
                     return m, 'MUTANT-STALE', 'revert of %s does not apply: %s' % (ed['revert'], r1.stdout.decode()[-200:])
                 continue
+            if 'patch' in ed:
+                # an archived seeded change (unified diff relative to the repository root)
+                r1 = subprocess.run(['patch', '-p1', '-s', '-d', repo, '-i', os.path.join(VERIF, ed['patch'])],
+                                    stdout=subprocess.PIPE, stderr=subprocess.STDOUT)
+                if r1.returncode != 0:
+                    return m, 'MUTANT-STALE', 'patch %s does not apply: %s' % (ed['patch'], r1.stdout.decode()[-200:])
+                continue
             p = os.path.join(repo, ed['file'])
             s = open(p).read()
             n = s.count(ed['old'])
